@@ -175,7 +175,10 @@ func (f *Filter) defaultJSMappingCallback(isolated *sourcemap.Mapping) {
 	isolated.OriginalFile = f.normalizePath(isolated.OriginalFile)
 
 	// Adjust line and column numbers to account for existing offset.
-	if isolated.GeneratedLine == 0 {
+	// Generated lines of decoded mappings are 1-based, so the first line of the
+	// isolated file, the only one that shares its line with what has been
+	// written before, is line 1.
+	if isolated.GeneratedLine == 1 {
 		isolated.GeneratedColumn += f.column
 	}
 	isolated.GeneratedLine += f.line
